@@ -88,10 +88,11 @@ class LangGen:
             if not l: return None
             for _ in range(6):
                 rr = self.nav(t, depth - 1, allow_vars)
-                if rr and self.lca(l[1], rr[1]):
+                # the toolbox types a set operation by its left operand: keep the right operand's type below it
+                # (sibling operand types are exercised separately by the C15 check)
+                if rr and (self.is_sub(rr[1], l[1]) or (self.k.get('sibling_sets') and self.lca(l[1], rr[1]))):
                     op = r.choice(['union', 'intersection', 'difference'])
-                    # static type as the toolbox computes it: the left operand's
-                    return ({'type': op, 'lhs': l[0], 'rhs': rr[0]}, l[1] if op != 'union' or self.is_sub(rr[1], l[1]) else self.lca(l[1], rr[1]))
+                    return ({'type': op, 'lhs': l[0], 'rhs': rr[0]}, l[1])
             return l
         if c == 'trans':
             # inner expression from t to a subtype of t, so that it can be iterated
@@ -212,6 +213,36 @@ class LangGen:
                             'variables': self.variables[nm], 'attackSteps': self.steps[nm]} for nm in self.names],
                 'associations': self.assocs}
         return spec
+
+def chain_language(rnd: random.Random):
+    """a single inheritance chain in which the same steps are redefined at every level with a random
+    mix of absent / '->' / '+>' / no-reaches declarations (the shapes C03 singles out)"""
+    depth = rnd.randint(3, 6)
+    names = [f'T{i}' for i in range(depth)]
+    assocs = [{'name': 'Link', 'meta': {}, 'leftAsset': 'T0', 'leftField': 'up', 'leftMultiplicity': {'min': 0, 'max': None},
+               'rightAsset': 'T0', 'rightField': 'down', 'rightMultiplicity': {'min': 0, 'max': None}}]
+    pool = ['s0', 's1', 's2']
+    def expr():
+        tgt = {'type': 'attackStep', 'name': rnd.choice(pool)}
+        k = rnd.random()
+        if k < 0.4: return tgt
+        nav = {'type': 'field', 'name': rnd.choice(['up', 'down'])}
+        if k > 0.8: nav = {'type': 'transitive', 'stepExpression': nav}
+        return {'type': 'collect', 'lhs': nav, 'rhs': tgt}
+    assets = []
+    for i, nm in enumerate(names):
+        steps = []
+        for sn in pool:
+            if i > 0 and rnd.random() < 0.3: continue          # absent at this level
+            kind = rnd.choice(['none', '->', '+>', '+>']) if i > 0 else rnd.choice(['none', 'none', '->'])
+            reaches = None if kind == 'none' else {'overrides': kind == '->', 'stepExpressions': [expr() for _ in range(rnd.randint(1, 2))]}
+            steps.append({'name': sn, 'meta': {}, 'type': {'s0': 'or', 's1': 'and', 's2': 'or'}[sn], 'tags': [] if rnd.random() < 0.7 else [f't{i}'],
+                          'risk': None, 'ttc': None if rnd.random() < 0.6 else {'type': 'function', 'name': 'Exponential', 'arguments': [float(i + 1)]},
+                          'requires': None, 'reaches': reaches})
+        assets.append({'name': nm, 'meta': {}, 'category': 'C', 'isAbstract': False, 'superAsset': names[i - 1] if i else None,
+                       'variables': [], 'attackSteps': steps})
+    return {'formatVersion': '1.0.0', 'defines': {'id': 'org.verif.chain', 'version': '0.0.1'}, 'categories': [{'name': 'C', 'meta': {}}],
+            'assets': assets, 'associations': assocs}
 
 def fix_exist_types(spec):
     """a redefinition keeps the type of the inherited step; an exist/notExist step needs a requirement at the
